@@ -694,15 +694,24 @@ INTEGER_decode_uper(const asn_codec_ctx_t *opt_codec_ctx,
 			|| asn_ulong2INTEGER(st, uvalue + ulb))
 				ASN__DECODE_FAILED;
 		} else {
-			long value = 0;
-			if(asn_INTEGER2long(st, &value))
+			/*
+			 * X.691 #11.7: the octets are the offset from the
+			 * lower bound, a non-negative-binary-integer.
+			 */
+			unsigned long offset = 0;
+			unsigned long room = (unsigned long)LONG_MAX
+					- (unsigned long)ct->lower_bound;
+			const uint8_t *b = st->buf;
+			const uint8_t *end = st->buf + st->size;
+			for(; b < end && *b == 0; b++);
+			if((size_t)(end - b) > sizeof(offset))
 				ASN__DECODE_FAILED;
-			if((ct->lower_bound > 0
-				&& value > LONG_MAX - ct->lower_bound)
-			|| (ct->lower_bound < 0
-				&& value < LONG_MIN - ct->lower_bound))
-				ASN__DECODE_FAILED;	/* Would overflow */
-			if(asn_imax2INTEGER(st, value + ct->lower_bound))
+			for(; b < end; b++)
+				offset = (offset << 8) | *b;
+			if(offset > room)
+				ASN__DECODE_FAILED;	/* Does not fit long */
+			if(asn_imax2INTEGER(st, (long)((unsigned long)
+					ct->lower_bound + offset)))
 				ASN__DECODE_FAILED;
 		}
 	}
